@@ -33,6 +33,12 @@ def feature_case(fname, N, T, ul_kind="brownian"):
                 continue
             for n in range(N):
                 c.check("%s: get(%d)[%d] == get(None)[:, %d]" % (fname, i, n, i), api.eq(elem(one, n, 0, 0), elem(full, n, i, 0)))
+        if fname != "empty":
+            # single steps requested in descending order on the same bound feature (no state carried between calls)
+            for i in reversed(range(T - 1)):
+                one = f.get(i)
+                for n in range(N):
+                    c.check("%s: descending get(%d)[%d] == get(None)[:, %d]" % (fname, i, n, i), api.eq(elem(one, n, 0, 0), elem(full, n, i, 0)))
         if fname not in ("empty", "zeros", "ones", "time_to_maturity", "expiry_time", "volatility", "variance") and T >= 3:
             if not (fname in ("volatility", "variance") and ul_kind == "brownian"):
                 c.control("control:%s wrong column" % fname, api.eq(elem(f.get(1), 0, 0, 0), elem(full, 0, 2, 0)))
